@@ -87,6 +87,8 @@ type rCfg struct {
 	WCyc  int `json:"w_cycle"`
 	WBind int `json:"w_bind"`
 	WOp   int `json:"w_op"`
+	// C19 only: order class of the start-up delivery into the fresh caches (resv-first | pods-first | interleaved)
+	Order string `json:"order,omitempty"`
 }
 
 type rOp struct {
@@ -783,6 +785,12 @@ func (resvEngine) Generate(p *sim.Plan, g *sim.Rng) {
 	default:
 		cfg.WPlug, cfg.WGlob, cfg.WPod, cfg.WCyc, cfg.WBind, cfg.WOp = 3, 3, 3, 3, 3, 3
 	}
+	c19 := p.Prop == "C19"
+	if c19 {
+		// the reservation and the pod informer are started together (cmd/koord-scheduler/app/server.go step 3):
+		// their initial lists reach the plugin's two handlers in any relative order
+		cfg.Order = []string{"resv-first", "resv-first", "resv-first", "resv-first", "resv-first", "resv-first", "interleaved", "interleaved", "pods-first", "pods-first"}[g.Intn(10)]
+	}
 	nOps := g.Range(10, 45)
 	if p.Tier == "thorough" {
 		nOps = g.Range(10, 90)
@@ -910,6 +918,9 @@ func (resvEngine) Generate(p *sim.Plan, g *sim.Rng) {
 	}
 	for len(ops) < nOps {
 		x := g.Intn(100)
+		if c19 && g.Bool(0.3) {
+			x = 20 + g.Intn(33) // C19 wants binds: more scheduling attempts
+		}
 		switch {
 		case x < 6:
 			newResv()
